@@ -84,8 +84,10 @@ def verdict_fragment():
 
 
 def spec_verdict(sat, err, unk, stuck, normal):
+    """the property's table: FAIL, then ERROR (a failed solver call, a stuck path), then TIMEOUT, `in that precedence`; then no successful
+    path (an error of its own), else PASS"""
     E = Exitcode
-    return z3.If(sat > 0, E.COUNTEREXAMPLE.value, z3.If(err > 0, E.EXCEPTION.value, z3.If(unk > 0, E.TIMEOUT.value, z3.If(stuck > 0, E.STUCK.value, z3.If(normal == 0, E.REVERT_ALL.value, E.PASS.value)))))
+    return z3.If(sat > 0, E.COUNTEREXAMPLE.value, z3.If(err > 0, E.EXCEPTION.value, z3.If(stuck > 0, E.STUCK.value, z3.If(unk > 0, E.TIMEOUT.value, z3.If(normal == 0, E.REVERT_ALL.value, E.PASS.value)))))
 
 
 def verdict_cases():
@@ -115,7 +117,25 @@ def verdict_cases():
 
 
 def replay_verdict(r):
-    return {"reproduced": None, "detail": f"verdict chain disagrees with the table for counts {r.get('model')}; the fragment is embedded in run_test and is not callable on its own"}
+    """the chain is embedded in run_test: replayed by executing its very source text (taken from the real function) natively on the model's counts"""
+    import textwrap
+    from collections import Counter
+
+    m = r.get("model") or {}
+    cnt = {k: int(m.get(f"n_{k}", 0) or 0) for k in ("sat", "err", "unknown", "unsat")}
+    n_stuck, normal = int(m.get("n_stuck", 0) or 0), int(m.get("n_normal", 0) or 0)
+    chain, _, _ = verdict_fragment()
+    src = textwrap.dedent(ast.unparse(chain))
+    env = dict(hm.run_test.__globals__)
+    env.update(counter=Counter(cnt), stuck=[None] * n_stuck, normal=normal, funsig="check_x()")
+    try:
+        exec(src, env)
+    except Exception as e:  # noqa
+        return {"reproduced": None, "detail": f"could not run the chain natively: {type(e).__name__}: {e}"}
+    got = env.get("exitcode")
+    order = {Exitcode.COUNTEREXAMPLE.value: "FAIL", Exitcode.EXCEPTION.value: "ERROR", Exitcode.STUCK.value: "ERROR (stuck)", Exitcode.TIMEOUT.value: "TIMEOUT", Exitcode.REVERT_ALL.value: "ERROR (all reverted)", Exitcode.PASS.value: "PASS"}
+    want = Exitcode.COUNTEREXAMPLE.value if cnt["sat"] else Exitcode.EXCEPTION.value if cnt["err"] else Exitcode.STUCK.value if n_stuck else Exitcode.TIMEOUT.value if cnt["unknown"] else Exitcode.REVERT_ALL.value if normal == 0 else Exitcode.PASS.value
+    return {"reproduced": got != want, "detail": f"outcomes sat={cnt['sat']} err={cnt['err']} unknown={cnt['unknown']} stuck paths={n_stuck} successful paths={normal}: run_test's verdict chain gives {order.get(got, got)}, the precedence FAIL > ERROR > TIMEOUT gives {order.get(want, want)}", "inputs": {**cnt, "stuck": n_stuck, "normal": normal}}
 
 
 def ground_exitcodes():
